@@ -243,6 +243,7 @@ fn run_doc(out: &mut Out, si: usize, sdl: &str, tsdoc: &TypeSystemDocument, sche
     let checked = errs.is_empty();
     out.docs.push(ast_coq::opdoc(&doc));
     let di = out.docs.len() - 1;
+    let (terms_mark, descr_mark) = (out.terms.len(), out.descr.len());
     out.distinct.insert(format!("{}\u{0}{}", sdl, text));
     *out.stats.entry("documents").or_insert(0) += 1;
     let mut st = BTreeMap::new();
@@ -326,6 +327,16 @@ fn run_doc(out: &mut Out, si: usize, sdl: &str, tsdoc: &TypeSystemDocument, sche
                                   "emitted_type": printed_ty, "merge_safe": safe, "typename_alias_free": af, "classes": classes2}));
             *out.stats.entry("relaxed_twin_cases").or_insert(0) += 1;
         }
+    }
+    // a few generated documents make the generator emit types of many megabytes (branches multiply with
+    // variables and nesting); coqc cannot parse such terms, so these documents are counted and left out
+    const CAP: usize = 400_000;
+    let biggest = out.terms[terms_mark..].iter().map(|t| t.2.len()).max().unwrap_or(0);
+    let e = out.stats.entry("largest_case_term_bytes").or_insert(0); *e = (*e).max(biggest);
+    if biggest > CAP {
+        out.terms.truncate(terms_mark);
+        out.descr.truncate(descr_mark);
+        *out.stats.entry("documents_left_out_case_term_over_400KB").or_insert(0) += 1;
     }
 }
 
